@@ -73,7 +73,6 @@ def showFVal : FVal → String
   | .int v => s!"i{v}"
   | .dec n => s!"d{n}"
   | .ex e f => (if f then "F:" else "I:") ++ showTree e
-  | .none => "none"
 
 def sortJoin (c : List String) : String :=
   let c := c.toArray.qsort (· < ·) |>.toList
@@ -89,9 +88,8 @@ def stepProg (j : Json) : Option String := do
       | .set _ e => match elabF env e with | .ok v => showFVal v | .error _ => "?"
     let cls := p.stmts.map fun s =>
       let c1 := match compileF env s with | .ok c => c.classes | .error _ => []
-      let c2 := match s with | .set _ e => if fSumMinus env e then ["sum-minus"] else []
       let c3 := if fixedToShort env s then ["fixed-to-short"] else []
-      sortJoin (c1 ++ c2 ++ c3)
+      sortJoin (c1 ++ c3)
     pure ("ok " ++ joinSp (code.map showInsn) ++ " | " ++ " ; ".intercalate trees ++ " | " ++ " ; ".intercalate cls)
 
 /-- `a < b` on the real classes: Python calls `a.__lt__(b)`, or, for a number on the left, the reflected `b.__gt__(a)`;
